@@ -180,7 +180,7 @@ def replay(path):
     print('findings:')
     for m, det in F:
         print('  ', m, det)
-    return 1 if F else 0
+    return 1 if [m for m, _ in F if not m.startswith('INFO:')] else 0
 
 
 def main():
@@ -205,6 +205,7 @@ def main():
     if errs:
         raise RuntimeError(errs[0])
     blocks = {}
+    info = {}
     mech = {}     # (mechanism, sub) -> (sortkey, case, cfg, detail, fs, toks)
     for block, sub, fs, toks, out in res:
         b = blocks.setdefault(block, [0, 0, 0])
@@ -214,6 +215,9 @@ def main():
             b[0] += 1
             b[1] += 1 if nt else 0
             for m, det in F:
+                if m.startswith('INFO:'):
+                    info[m] = info.get(m, 0) + 1
+                    continue
                 sk = (len(toks), fs != 'std', fs, tix, cfg_str(cfg))
                 cur = mech.get((m, sub))
                 if cur is None or sk < cur[0]:
@@ -239,6 +243,7 @@ def main():
                                               L.canon_pool(L.cleavage_of(CFG_A)), True)[0])))
     run.extra['flanks'] = {k: dict(left=v[0], tokens=v[1], right=v[2]) for k, v in FLANKS.items()}
     run.extra['coding_transcript'] = L.CODING
+    run.extra['observations_outside_property'] = info
     run.finish()
 
 
